@@ -182,6 +182,32 @@ func (e *Env) Prepare(main string, files map[string]string) (wf workflow.Executa
 	return wf, err, ""
 }
 
+// SharedPreparer parses the text once and returns a function that prepares that parsed workflow
+// with one executor, as often as it is called.
+func (e *Env) SharedPreparer(main string, files map[string]string) func() (workflow.ExecutableWorkflow, error, string) {
+	ctxFiles := map[string][]byte{}
+	for k, v := range files {
+		ctxFiles[k] = []byte(v)
+	}
+	parsed, perr := workflow.NewYAMLConverter(e.Registry).FromYAML([]byte(main))
+	var executor workflow.Executor
+	if perr == nil {
+		executor, perr = workflow.NewExecutor(e.Logger, e.Config, e.Registry, builtinfunctions.GetFunctions())
+	}
+	return func() (wf workflow.ExecutableWorkflow, err error, panicked string) {
+		defer func() {
+			if r := recover(); r != nil {
+				panicked = fmt.Sprintf("%v\n%s", r, shortStack())
+			}
+		}()
+		if perr != nil {
+			return nil, perr, ""
+		}
+		wf, err = executor.Prepare(parsed, ctxFiles)
+		return wf, err, ""
+	}
+}
+
 func shortStack() string {
 	buf := make([]byte, 16384)
 	n := runtime.Stack(buf, false)
